@@ -9,12 +9,17 @@ Proof. unfold sess_of, set_sess. cbn [sessions]. rewrite lookup_upd_eq. reflexiv
 Lemma sess_of_set_neq st s s' x : s <> s' -> sess_of (set_sess st s x) s' = sess_of st s'.
 Proof. intros H. unfold sess_of, set_sess. cbn [sessions]. rewrite lookup_upd_neq by exact H. reflexivity. Qed.
 
-Lemma eval_with_ext a b se r :
-  pfacts a = pfacts b -> pcat a = pcat b -> eval_with a se r = eval_with b se r.
-Proof. intros Hf Hc. unfold eval_with. rewrite Hf, Hc. reflexivity. Qed.
+Lemma kg_of_ext a b k : kgs a = kgs b -> kg_of a k = kg_of b k.
+Proof. intros H. unfold kg_of. rewrite H. reflexivity. Qed.
 
-Lemma schema_ok_ext a b r ts : schemas a = schemas b -> schema_ok a r ts = schema_ok b r ts.
-Proof. intros H. unfold schema_ok. rewrite H. reflexivity. Qed.
+Lemma eval_with_ext a b se r : kgs a = kgs b -> eval_with a se r = eval_with b se r.
+Proof. intros H. unfold eval_with. rewrite (kg_of_ext a b _ H). reflexivity. Qed.
+
+Lemma set_kg_ext a b k g : kgs a = kgs b -> kgs (set_kg a k g) = kgs (set_kg b k g).
+Proof. intros H. unfold set_kg. cbn [kgs]. rewrite H. reflexivity. Qed.
+
+Lemma sess_of_set_kg st k g s : sess_of (set_kg st k g) s = sess_of st s.
+Proof. reflexivity. Qed.
 
 Lemma answers_cons a o r :
   answers a (o :: r) = (o, snd (hstep a o)) :: answers (fst (hstep a o)) r.
@@ -36,13 +41,12 @@ Section View.
   Definition keep (o : hop) : bool := match owner o with None => true | Some s => ks s end.
 
   Definition agreeK (a b : hst) : Prop :=
-    pfacts a = pfacts b /\ pcat a = pcat b /\ schemas a = schemas b /\
-    forall s, ks s = true -> sess_of a s = sess_of b s.
+    kgs a = kgs b /\ forall s, ks s = true -> sess_of a s = sess_of b s.
 
   Lemma agree_set a b s x :
     agreeK a b -> agreeK (set_sess a s x) (set_sess b s x).
   Proof.
-    intros (Hf & Hc & Hs & Hk). repeat split; auto.
+    intros (Hg & Hk). split; [exact Hg|].
     intros s' K. destruct (N.eq_dec s s') as [<-|Hne].
     - now rewrite !sess_of_set_eq.
     - rewrite !sess_of_set_neq by exact Hne. now apply Hk.
@@ -51,8 +55,15 @@ Section View.
   Lemma agree_set_left a b s x :
     ks s = false -> agreeK a b -> agreeK (set_sess a s x) b.
   Proof.
-    intros K (Hf & Hc & Hs & Hk). repeat split; auto.
+    intros K (Hg & Hk). split; [exact Hg|].
     intros s' K'. rewrite sess_of_set_neq; [now apply Hk|]. intros ->. congruence.
+  Qed.
+
+  Lemma agree_set_kg a b k g :
+    agreeK a b -> agreeK (set_kg a k g) (set_kg b k g).
+  Proof.
+    intros (Hg & Hk). split; [now apply set_kg_ext|].
+    intros s K. rewrite !sess_of_set_kg. now apply Hk.
   Qed.
 
   (* a kept step: same answer, still in agreement *)
@@ -60,24 +71,25 @@ Section View.
     agreeK a b -> keep o = true ->
     agreeK (fst (hstep a o)) (fst (hstep b o)) /\ snd (hstep a o) = snd (hstep b o).
   Proof.
-    intros A K. pose proof A as (Hf & Hc & Hs & Hk).
-    destruct o; cbn [keep owner] in K; cbn [hstep].
-    - (* PInsert *)
-      rewrite Hc, (schema_ok_ext a b r ts Hs), Hf.
-      destruct (is_head (pcat b) r || negb (schema_ok b r ts)); cbn [fst snd]; split; auto.
-      repeat split; auto.
-    - rewrite Hf. cbn [fst snd]. split; auto. repeat split; auto.
-    - rewrite Hc. destruct acc; cbn [fst snd]; split; auto. repeat split; auto.
-    - rewrite Hc. cbn [fst snd]. split; auto. repeat split; auto.
-    - cbn [fst snd]. split; auto. unfold eval_pers. now rewrite (eval_with_ext a b _ r Hf Hc).
-    - rewrite (Hk s K). cbn [fst snd]. split; auto. now apply agree_set.
-    - rewrite (Hk s K). cbn [fst snd]. split; auto. now apply agree_set.
-    - rewrite (Hk s K). destruct acc; cbn [fst snd]; split; auto. now apply agree_set.
+    intros A K. pose proof A as (Hg & Hk).
+    destruct o; cbn [keep owner] in K; cbn [hstep];
+      try rewrite (kg_of_ext a b k Hg); try rewrite (Hk s K).
+    - destruct (is_head (pcat (kg_of b k)) r || negb (schema_ok (kg_of b k) r ts)); cbn [fst snd]; split; auto.
+      now apply agree_set_kg.
+    - cbn [fst snd]. split; auto. now apply agree_set_kg.
+    - destruct acc; cbn [fst snd]; split; auto. now apply agree_set_kg.
+    - cbn [fst snd]. split; auto. now apply agree_set_kg.
+    - cbn [fst snd]. split; auto. unfold eval_pers. now rewrite (kg_of_ext a b k Hg).
     - cbn [fst snd]. split; auto. now apply agree_set.
-    - rewrite (Hk s K). cbn [fst snd]. split; auto. now apply agree_set.
-    - rewrite (Hk s K). cbn [fst snd]. split; auto. now rewrite (eval_with_ext a b _ r Hf Hc).
-    - rewrite (Hk s K). cbn [fst snd]. split; auto. now rewrite (eval_with_ext a b _ r Hf Hc).
-    - rewrite Hs. cbn [fst snd]. split; auto. repeat split; auto.
+    - cbn [fst snd]. split; auto. now apply agree_set.
+    - destruct acc; cbn [fst snd]; split; auto. now apply agree_set.
+    - cbn [fst snd]. split; auto. now apply agree_set.
+    - cbn [fst snd]. split; auto. now apply agree_set.
+    - destruct (Nat.ltb i (length (srules (sess_of b s)))); cbn [fst snd]; split; auto. now apply agree_set.
+    - cbn [fst snd]. split; auto. now apply agree_set.
+    - cbn [fst snd]. split; auto. now rewrite (eval_with_ext a b _ r Hg).
+    - cbn [fst snd]. split; auto. now rewrite (eval_with_ext a b _ r Hg).
+    - rewrite (kg_of_ext a b _ Hg). cbn [fst snd]. split; auto. now apply agree_set_kg.
   Qed.
 
   (* a step of a session outside the kept set, not a schema declaration: invisible *)
@@ -89,6 +101,8 @@ Section View.
     - cbn [fst]. now apply agree_set_left.
     - destruct acc; cbn [fst]; auto. now apply agree_set_left.
     - cbn [fst]. now apply agree_set_left.
+    - cbn [fst]. now apply agree_set_left.
+    - destruct (Nat.ltb i (length (srules (sess_of a s)))); cbn [fst]; auto. now apply agree_set_left.
     - cbn [fst]. now apply agree_set_left.
     - exact A.
     - exact A.
@@ -114,7 +128,7 @@ Section View.
 End View.
 
 Lemma agreeK_refl ks a : agreeK ks a a.
-Proof. repeat split; auto. Qed.
+Proof. split; auto. Qed.
 
 Lemma no_schema_forall ks h :
   no_session_schema h = true -> forallb (fun o => keep ks o || negb (is_schema o)) h = true.
@@ -132,15 +146,14 @@ Proof. intros H. induction l as [|x l IH]; cbn [filter]; auto. rewrite H, IH. re
 Theorem session_view s h :
   no_session_schema h = true ->
   filter (fun e => is_pers (fst e) || owned_by s (fst e)) (answers hinit h) = answers hinit (view_of s h) /\
-  pfacts (hrun hinit h) = pfacts (hrun hinit (view_of s h)) /\
-  pcat (hrun hinit h) = pcat (hrun hinit (view_of s h)) /\
+  kgs (hrun hinit h) = kgs (hrun hinit (view_of s h)) /\
   sess_of (hrun hinit h) s = sess_of (hrun hinit (view_of s h)) s.
 Proof.
   intros NS.
-  destruct (view_sim (N.eqb s) h hinit hinit (no_schema_forall _ h NS) (agreeK_refl _ _)) as [E (Hf & Hc & _ & Hk)].
+  destruct (view_sim (N.eqb s) h hinit hinit (no_schema_forall _ h NS) (agreeK_refl _ _)) as [E (Hg & Hk)].
   assert (V : filter (keep (N.eqb s)) h = view_of s h).
   { unfold view_of. apply filter_ext_bool. intros o. apply keep_one. }
-  rewrite V in *. split; [|split; [exact Hf|split; [exact Hc|]]].
+  rewrite V in *. split; [|split; [exact Hg|]].
   - rewrite <- E. apply filter_ext_bool. intros e. symmetry. apply keep_one.
   - apply Hk. apply N.eqb_refl.
 Qed.
@@ -152,14 +165,13 @@ Proof. unfold keep, is_pers. destruct (owner o); reflexivity. Qed.
 Theorem persistent_frame h :
   no_session_schema h = true ->
   pers_answers (answers hinit h) = answers hinit (filter is_pers h) /\
-  pfacts (hrun hinit h) = pfacts (hrun hinit (filter is_pers h)) /\
-  pcat (hrun hinit h) = pcat (hrun hinit (filter is_pers h)).
+  kgs (hrun hinit h) = kgs (hrun hinit (filter is_pers h)).
 Proof.
   intros NS.
-  destruct (view_sim (fun _ => false) h hinit hinit (no_schema_forall _ h NS) (agreeK_refl _ _)) as [E (Hf & Hc & _ & _)].
+  destruct (view_sim (fun _ => false) h hinit hinit (no_schema_forall _ h NS) (agreeK_refl _ _)) as [E (Hg & _)].
   assert (V : filter (keep (fun _ => false)) h = filter is_pers h).
   { apply filter_ext_bool. intros o. apply keep_none. }
-  rewrite V in *. split; [|split; [exact Hf|exact Hc]].
+  rewrite V in *. split; [|exact Hg].
   rewrite <- E. unfold pers_answers. apply filter_ext_bool. intros e. symmetry. apply keep_none.
 Qed.
 
@@ -171,14 +183,14 @@ Lemma own_state_step s a b o :
   (owned_by s o = false -> sess_of (fst (hstep a o)) s = sess_of b s).
 Proof.
   intros E. unfold owned_by.
-  destruct o; cbn [owner hstep]; split; intros K; try discriminate; cbn [fst];
-    try (apply N.eqb_eq in K; subst; rewrite ?E, ?sess_of_set_eq; reflexivity);
-    try (apply N.eqb_neq in K; rewrite ?sess_of_set_neq by congruence; exact E);
-    try exact E.
-  - destruct (is_head (pcat a) r || negb (schema_ok a r ts)); exact E.
-  - destruct acc; exact E.
-  - apply N.eqb_eq in K; subst. rewrite E. destruct acc; cbn [fst]; rewrite ?sess_of_set_eq; auto.
-  - apply N.eqb_neq in K. destruct acc; cbn [fst]; rewrite ?sess_of_set_neq by congruence; exact E.
+  destruct o; cbn [owner hstep]; split; intros K; try discriminate;
+    try (apply N.eqb_eq in K; subst s0); try rewrite E;
+    try (apply N.eqb_neq in K);
+    repeat match goal with
+           | |- context [if ?c then _ else _] => destruct c
+           end;
+    cbn [fst]; rewrite ?sess_of_set_kg, ?sess_of_set_eq; try reflexivity; try exact E;
+    try (rewrite sess_of_set_neq by congruence; exact E).
 Qed.
 
 Theorem own_state s h : forall a b,
@@ -192,12 +204,34 @@ Proof.
   - apply IH. now apply H2.
 Qed.
 
+(* ------------------------------------------------------------------ clear / KG switch reset the
+   session: afterwards it behaves like a fresh session bound to that knowledge graph *)
+Lemma answers_agree_all own : forall a b,
+  forallb (fun x => keep (fun _ => true) x) own = true ->
+  agreeK (fun _ => true) a b -> answers a own = answers b own.
+Proof.
+  induction own as [|o r IH]; intros a b F A; [reflexivity|].
+  cbn [forallb] in F. apply andb_true_iff in F. destruct F as [Fo F].
+  rewrite !answers_cons. destruct (kept_step _ a b o A Fo) as [A' E]. rewrite E. f_equal. now apply IH.
+Qed.
+
+Lemma after_reset_like_fresh st s o own :
+  (o = SClear s \/ exists k, o = SKgUse s k) ->
+  forallb (fun x => is_pers x || owned_by s x) own = true ->
+  answers (fst (hstep st o)) own
+  = answers (set_sess st s (mkSess [] [] (skg (sess_of (fst (hstep st o)) s)))) own.
+Proof.
+  intros Ho _. apply answers_agree_all.
+  - apply forallb_forall. intros x _. unfold keep. destruct (owner x); reflexivity.
+  - destruct Ho as [->|[k ->]]; cbn [hstep fst]; rewrite sess_of_set_eq; cbn [skg]; apply agreeK_refl.
+Qed.
+
 (* ------------------------------------------------------------------ the known finding: a session's
    schema declaration changes what happens to other sessions' persistent inserts *)
 Definition w_schema : list hop :=
-  [SSchema 1 7 [CInt; CStr]; PInsert 7 [[VI64 1; VI64 2]]; SQuery 2 7].
+  [SSchema 1 7 [CInt; CStr]; PInsert 0 7 [[VI64 1; VI64 2]]; SQuery 2 7].
 
 Lemma refuted_schema :
   exists h, c10_known h = 1 /\
-    get (pfacts (hrun hinit h)) 7 <> get (pfacts (hrun hinit (filter is_pers h))) 7.
+    get (pfacts (kg_of (hrun hinit h) 0)) 7 <> get (pfacts (kg_of (hrun hinit (filter is_pers h)) 0)) 7.
 Proof. exists w_schema. split; [reflexivity|]. vm_compute. discriminate. Qed.
